@@ -78,6 +78,12 @@ func c03(c *wk.Ctx) {
 // client -> server: the library seals, the reference server opens.
 func c03out(c *wk.Ctx, idx int, info *stubInfo, msgID int64, body []byte, ack bool, ks string) {
 	m := &messages.Encrypted{Msg: body, MsgID: msgID, AuthKeyHash: mtp.AuthKeyID(info.key)}
+	switch len(body) % 4 {
+	case 1:
+		m.AuthKeyHash = nil // the field is not part of the statement: the id on the wire derives from the auth key
+	case 2:
+		m.AuthKeyHash = []byte{1, 2, 3, 4, 5, 6, 7, 8} // stale value (e.g. kept from before a re-keying)
+	}
 	var pkt []byte
 	var err error
 	pan, pm, st := wk.Guard(func() { pkt, err = m.Serialize(info, ack) })
